@@ -72,6 +72,8 @@ type Outcome struct {
 // Exec is a resolved operation: operands and parameters are fixed, Run can be
 // executed any number of times (every run builds fresh closures).
 type Exec struct {
+	D      OpDesc
+	Other  *Member
 	Kind   string
 	Desc   string
 	Recv   *Member
@@ -93,7 +95,18 @@ func strPtr(s string) *string { return &s }
 // Resolve turns an abstract operation into an executable one against the
 // current family.
 func Resolve(w *World, d OpDesc, client int) *Exec {
-	recv := w.Members[d.Recv%len(w.Members)]
+	return ResolveWith(w, d, client, w.Members[d.Recv%len(w.Members)], w.Members[d.Arg%len(w.Members)])
+}
+
+// ResolveWith resolves d against an explicit receiver and second operand
+// (used to run the very same operation on fresh copies of its operands).
+func ResolveWith(w *World, d OpDesc, client int, recv, other *Member) *Exec {
+	ex := resolveWith(w, d, client, recv, other)
+	ex.D, ex.Other = d, other
+	return ex
+}
+
+func resolveWith(w *World, d OpDesc, client int, recv, other *Member) *Exec {
 	switch recv.Kind {
 	case KGrouper:
 		return resolveGrouper(w, d, recv, client)
@@ -103,7 +116,7 @@ func Resolve(w *World, d OpDesc, client int) *Exec {
 			return &Outcome{Canon: strings.Join(viewObs(v), ",")}
 		}}
 	}
-	return resolveFrame(w, d, recv, client)
+	return resolveFrame(w, d, recv, other, client)
 }
 
 func frameOutcome(f qframe.QFrame, origin string, client int, unordered bool) *Outcome {
@@ -301,7 +314,7 @@ func (w *World) UserCtx() *eval.Context {
 	return w.userCtx.(*eval.Context)
 }
 
-func resolveFrame(w *World, d OpDesc, recv *Member, client int) *Exec {
+func resolveFrame(w *World, d OpDesc, recv, other *Member, client int) *Exec {
 	f := recv.F
 	p := func(i int) int { return pick(d, i) }
 	id := fmt.Sprintf("m%d", recv.ID)
@@ -446,9 +459,34 @@ func resolveFrame(w *World, d OpDesc, recv *Member, client int) *Exec {
 					}, DstCol: dst, SrcCol1: src, SrcCol2: src2}
 				}
 			}
-			if p(6)%3 == 0 {
+			switch p(6) % 4 {
+			case 0:
 				// a second instruction reading what the first wrote
 				return []qframe.Instruction{ins, {Fn: types.ColumnName(dst), DstCol: "ap3"}}
+			case 1:
+				// copy a column, then rewrite the copy in the same call (the
+				// copy shares storage with its source)
+				var fn interface{}
+				switch typ {
+				case "int":
+					fn = func(x int) int { return x + 1000 }
+				case "float":
+					fn = func(x float64) float64 { return x + 0.5 }
+				case "bool":
+					fn = func(x bool) bool { return !x }
+				default:
+					fn = func(x *string) *string {
+						s := "<>"
+						if x != nil {
+							s = "<" + *x + ">"
+						}
+						return &s
+					}
+				}
+				return []qframe.Instruction{{Fn: types.ColumnName(src), DstCol: "tmp"}, {Fn: fn, DstCol: "tmp", SrcCol1: "tmp"}, ins}
+			case 2:
+				// a no-op self copy first
+				return []qframe.Instruction{{Fn: types.ColumnName(src), DstCol: src}, ins}
 			}
 			return []qframe.Instruction{ins}
 		}
@@ -642,8 +680,7 @@ func resolveFrame(w *World, d OpDesc, recv *Member, client int) *Exec {
 		ex.Desc = id + ".String"
 		ex.Run = func() *Outcome { return &Outcome{Canon: f.String()} }
 	case "equals":
-		other := w.Members[d.Arg%len(w.Members)]
-		if other.Kind != KFrame {
+		if other == nil || other.Kind != KFrame {
 			other = recv
 		}
 		of := other.F
